@@ -278,8 +278,19 @@ def run(ctx):
             alts = n[1] if n[0] == "phi" else (n,)
             alts = [uncast(x) for x in alts if x != ("int", 0)]
             okn = len(alts) == 1 and alts[0][0] == "vfield" and alts[0][2] == "Ok" and is_call(alts[0][1]) and alts[0][1][3] == (sr.path, sb)
+            if not okn and len(alts) == 1:
+                # or the length of the very datagram handed to this send_to (a successful UDP send returns exactly that length)
+                x = alts[0]
+                pay = W.expand(sev.call_args(sb)[1])
+                while is_call(pay) and callee_name(pay[1]) in values.VIEW_NAMES and pay[2]:
+                    pay = W.expand(pay[2][0])
+                if x[0] == "len" or (is_call(x) and callee_name(x[1]) == "len"):
+                    of = W.expand(x[1] if x[0] == "len" else x[2][0])
+                    while is_call(of) and callee_name(of[1]) in values.VIEW_NAMES and of[2]:
+                        of = W.expand(of[2][0])
+                    okn = of == pay
             rels = flow.rel_facts_at(SIN, bb)
-            ctx.check("send-wiring", "%s/bytes-are-send-result" % m, okn, "bytes recorded = value returned by send_to", "bytes recorded are %s" % fmt(n), sr.loc(bb))
+            ctx.check("send-wiring", "%s/bytes-are-send-result" % m, okn, "bytes recorded = value returned by send_to (or the length of the datagram passed to it)", "bytes recorded are %s" % fmt(n), sr.loc(bb))
     # exactly one record per iteration: the success flag partitions
     ok_paths = all(values.must_pass(sr, [r[0] for r in recs], from_block=sr.succ(sb)[0], to_blocks={l["header"] for l in sr.in_loop(sb)}) for _ in [0]) if sr.in_loop(sb) else False
     ctx.check("send-wiring", "one-record-per-send", ok_paths, "every iteration records exactly one outcome after sending", "an iteration can finish without recording the outcome of its send", sr.loc(sb))
